@@ -19,16 +19,16 @@ import (
 // free to completion, the queue is drained and the run's outcome is written for Trace_BQueueDirect.tla.
 
 type dStep struct {
-	A    string           `json:"a"`
-	T    string           `json:"t"`
-	K    string           `json:"k"`
-	Ch   []int            `json:"ch"`
-	Pool []int            `json:"pool"`
-	Lval []int            `json:"lval"`
-	Lpc  string           `json:"lpc"`
-	Lock string           `json:"lock"`
+	A    string              `json:"a"`
+	T    string              `json:"t"`
+	K    string              `json:"k"`
+	Ch   []int               `json:"ch"`
+	Pool []int               `json:"pool"`
+	Lval []int               `json:"lval"`
+	Lpc  string              `json:"lpc"`
+	Lock string              `json:"lock"`
 	Pres map[string][]string `json:"pres"`
-	Cres map[string][]int `json:"cres"`
+	Cres map[string][]int    `json:"cres"`
 }
 
 type dThread struct {
